@@ -15,12 +15,14 @@ def toyCfg : Cfg :=
     dec := toyDec }
 
 theorem toy_codecId : CodecId toyCfg := by
-  intro i j h
+  intro i j ht h
   simp only [toyCfg, toyDec] at h
   split at h
   · cases h
   · simp at h
     rw [← h]
+    simp
+    omega
 
 theorem toy_rawOK : RawOK toyCfg := by
   constructor
